@@ -184,6 +184,10 @@ class TextGen:
                 first = first or it
                 self.add(it, position="merge", cls=t[0], text=t[1], pair=f"{self.prefix}p{k}", form=form,
                          field_cls=fdoc[0])
+                if j == 1:
+                    # one root that reaches both: a single export_all merges the two into their file
+                    holder = self.mk("named", fields=[Field("one", Ty("user", item=first)), Field("two", Ty("user", item=it))])
+                    self.add(holder, position="merge-holder", cls=t[0], text=None, form=form, field_cls=fdoc[0])
 
     def finish(self):
         self.g.items = self.items
